@@ -15,6 +15,7 @@
 -/
 import Driver.Common
 import Driver.TypeCheckCodec
+import Driver.C08Keys
 import Parsley.Spec.TypeCheckFrag
 import Parsley.Spec.TypeCheckWF
 namespace Driver.C08
@@ -94,6 +95,8 @@ def gen (seed n : Nat) (tier : String) (emit : String → IO Unit) : IO Unit := 
   genSmall "c08" (tier == "thorough") emit
   genUnwindSmall "c08" emit
   genNamedKinds "c08" seed emit
+  -- key requirement x entry check kind x key state, dictionaries and streams of 1..3 entries, wildcard entries
+  C08Keys.genKeys "c08" (tier == "thorough") emit
   let mut r := Rng.mk' seed
   for _ in List.range n do
     let (l, r') := genCase "c08" r
@@ -105,6 +108,10 @@ def gen (seed n : Nat) (tier : String) (emit : String → IO Unit) : IO Unit := 
     emit l
   for _ in List.range (n / 5) do
     let (l, r') := genUnwindWrapped "c08" r
+    r := r'
+    emit l
+  for _ in List.range (n / 5) do
+    let (l, r') := C08Keys.genKeysRandom "c08" r
     r := r'
     emit l
 
